@@ -25,6 +25,9 @@ struct Case
   // 2 = a USED object: first configured with another window of the same files (pre_start, pre_max), pre_reads calls made on it, then
   // reset_configuration() + set_configuration(the window under test) - it must behave like a new reader
   int how = 0, pre_start = 0, pre_max = 0, pre_reads = 0;
+  // files whose lines end in CR LF (a file that went through a Windows tool): the reader parses tokens separated by white space, so the
+  // line terminator is layout, not content - the same events must come back
+  std::vector<int> crlf_files;
 };
 
 static std::string fmt15(double x) { std::ostringstream o; o.precision(15); o << x; return o.str(); }
@@ -66,7 +69,7 @@ static std::string case_json(const Case & c)
     o += "]}";
   }
   auto ivec = [](const std::vector<int> & v) { std::string s = "["; for (size_t i = 0; i < v.size(); i++) { if (i) s += ","; s += std::to_string(v[i]); } return s + "]"; };
-  o += "],\"cuts\":" + ivec(c.cuts) + ",\"ws_files\":" + ivec(c.ws_files) + ",\"start\":" + std::to_string(c.start) + ",\"max\":" + std::to_string(c.max) + ",\"ops\":" + ivec(c.ops) + ",\"zero_time\":" + (c.zero_time ? "true" : "false") + ",\"how\":" + std::to_string(c.how) + ",\"pre_start\":" + std::to_string(c.pre_start) + ",\"pre_max\":" + std::to_string(c.pre_max) + ",\"pre_reads\":" + std::to_string(c.pre_reads) + "}";
+  o += "],\"cuts\":" + ivec(c.cuts) + ",\"ws_files\":" + ivec(c.ws_files) + ",\"start\":" + std::to_string(c.start) + ",\"max\":" + std::to_string(c.max) + ",\"ops\":" + ivec(c.ops) + ",\"zero_time\":" + (c.zero_time ? "true" : "false") + ",\"how\":" + std::to_string(c.how) + ",\"pre_start\":" + std::to_string(c.pre_start) + ",\"pre_max\":" + std::to_string(c.pre_max) + ",\"pre_reads\":" + std::to_string(c.pre_reads) + ",\"crlf_files\":" + ivec(c.crlf_files) + "}";
   return o;
 }
 static Case case_from(const JV & j)
@@ -77,7 +80,9 @@ static Case case_from(const JV & j)
   for (auto & e : j.at("ws_files").arr) c.ws_files.push_back((int)e.num);
   for (auto & e : j.at("ops").arr) c.ops.push_back((int)e.num);
   c.start = (int)j.n("start", 0); c.max = (int)j.n("max", 0); c.zero_time = j.has("zero_time") && j.at("zero_time").b;
-  c.how = (int)j.n("how", 0); c.pre_start = (int)j.n("pre_start", 0); c.pre_max = (int)j.n("pre_max", 0); c.pre_reads = (int)j.n("pre_reads", 0); return c;
+  c.how = (int)j.n("how", 0); c.pre_start = (int)j.n("pre_start", 0); c.pre_max = (int)j.n("pre_max", 0); c.pre_reads = (int)j.n("pre_reads", 0);
+  if (j.has("crlf_files")) for (auto & e : j.at("crlf_files").arr) c.crlf_files.push_back((int)e.num);
+  return c;
 }
 
 struct Res { bool ok = true; std::string cls, msg; std::string shape; bool nontrivial = false; };
@@ -94,7 +99,12 @@ static Res run_case(const Case & c, const std::string & dir)
     std::string path = dir + "/f" + std::to_string(f) + ".d0t"; std::ofstream out(path);
     bool ws = std::find(c.ws_files.begin(), c.ws_files.end(), (int)f) != c.ws_files.end();
     if (ranges[f].first == ranges[f].second && ws) out << "  \n\t\n \n";
-    for (int i = ranges[f].first; i < ranges[f].second; i++) out << record_text(c.stream[i], i);
+    bool crlf = std::find(c.crlf_files.begin(), c.crlf_files.end(), (int)f) != c.crlf_files.end();
+    for (int i = ranges[f].first; i < ranges[f].second; i++) {
+      std::string rec = record_text(c.stream[i], i);
+      if (crlf) { std::string w; for (char ch : rec) { if (ch == '\n') w += '\r'; w += ch; } rec = w; }
+      out << rec;
+    }
     if (ranges[f].second > ranges[f].first) nonempty++;
     files.push_back(path);
   }
@@ -121,6 +131,7 @@ static Res run_case(const Case & c, const std::string & dir)
   } catch (std::exception & e) { return fail("configure-throws", std::string("set_configuration raised: ") + e.what()); }
   if (!rd->is_configured()) return fail("not-configured", "is_configured() is false after the configuration was set");
   r.shape += c.how == 0 ? "/ctor" : (c.how == 1 ? "/set" : "/reused");
+  if (!c.crlf_files.empty()) r.shape += "/crlf";
   int delivered = 0, expect_total = hi - lo;
   std::vector<int> ops = c.ops; // then drain: H L H L ... until model says done, plus two extra has_next
   for (int k = 0; k < 2 * (expect_total + 2); k++) ops.push_back(k % 2);
@@ -153,6 +164,14 @@ static Res run_case(const Case & c, const std::string & dir)
     }
   }
   if (delivered != expect_total) return fail("short", "delivered " + std::to_string(delivered) + " of " + std::to_string(expect_total));
+  // the window is exhausted and the reader said so: "exactly the events start .. start+max-1" also means that a caller who loads once more gets
+  // nothing (the reader raises an error) - never an event from beyond the window
+  {
+    bxdecay0::event extra; bool threw = false;
+    try { rd->load_next_event(extra); } catch (std::exception &) { threw = true; }
+    if (!threw && !extra.get_particles().empty()) return fail("delivers-outside-window", "load_next_event() after the window [" + std::to_string(lo) + "," + std::to_string(hi) + ") was exhausted (has_next_event() == false) delivered one more event with " + std::to_string(extra.get_particles().size()) + " particles, generator '" + extra.get_generator() + "'");
+    if (!threw) r.shape += "/extra-load-returned-empty";
+  }
   return r;
 }
 
@@ -212,6 +231,7 @@ int main(int argc, char ** argv)
       c.ops = *rc::gen::resize(30, rc::gen::container<std::vector<int>>(rc::gen::resize(100, rc::gen::inRange(0, 2))));
       c.zero_time = *rc::gen::resize(100, rc::gen::inRange(0, 5)) == 0;
       c.how = *rc::gen::resize(100, rc::gen::inRange(0, 3));
+      if (*rc::gen::resize(100, rc::gen::inRange(0, 4)) == 0) c.crlf_files = *rc::gen::resize(4, rc::gen::container<std::vector<int>>(rc::gen::resize(100, rc::gen::inRange(0, 7))));
       if (c.how == 2) { c.pre_start = *rc::gen::resize(100, rc::gen::inRange(0, n + 2)); c.pre_max = *rc::gen::resize(100, rc::gen::inRange(0, n + 2)); c.pre_reads = *rc::gen::resize(100, rc::gen::inRange(0, n + 3)); }
       Res r = run_case(c, dir);
       rep.evaluations++;
